@@ -1,6 +1,6 @@
 (* C04 — field-selection rules fire exactly when the spec condition is violated. *)
 From GT Require Import Visitor Validate.
-From GTS Require Import Annot WfSchema SpecRules SpecValid.
+From GTS Require Import Annot WfSchema PoolSchemas SpecRules SpecValid.
 From GTP Require Import C04_proofs.
 
 Theorem C04_fields_on_correct_type : forall s d, wf_schema s = true ->
@@ -19,3 +19,39 @@ Theorem C04_codes : forall s d e,
   (In e (run_alone R_LeafFieldSelections s d) -> e_rule e = R_LeafFieldSelections).
 Proof. exact c04_codes. Qed.
 Print Assumptions C04_codes.
+
+(* `__typename` at the root of a subscription, on a schema WITHOUT a subscription root type (pool_minimal:
+   the object types Query and T), so that FieldsOnCorrectType is the only rule to object.  The rule reports
+   the field when it is a direct child of the operation and also when it sits inside inline fragments
+   without a type condition (they select on the same type): one error per such field, located at the
+   operation.  Inline fragments WITH a type condition are not looked through.
+     subscription { __typename }                          reported
+     subscription { ... { __typename } }                  reported
+     subscription { ... { ... { __typename } } __typename }   reported twice
+     subscription { ... on T { __typename } }             not reported *)
+Definition st_pos : pos := (1%N, 1%N).
+Definition st_span : span := (st_pos, st_pos).
+Definition st_typename : selection := SField (2%N, 3%N) None "__typename" [] [] st_span [].
+Definition st_inline (tc : option name) (l : list selection) : selection := SInline (2%N, 2%N) tc [] st_span l.
+Definition st_doc (l : list selection) : document := [DOp (mkOperation OpSubscription st_pos None [] [] st_span l)].
+
+Example C04_subscription_root_typename :
+  match pool_minimal with
+  | Some s =>
+      wf_schema s = true /\ root s OpSubscription = None /\
+      run_alone R_FieldsOnCorrectType s (st_doc [st_typename]) <> [] /\
+      run_alone R_FieldsOnCorrectType s (st_doc [st_inline None [st_typename]]) <> [] /\
+      run_alone R_FieldsOnCorrectType s (st_doc [st_inline (Some "T") [st_typename]]) = [] /\
+      (* the same, in full *)
+      run_alone R_FieldsOnCorrectType s (st_doc [st_typename]) = [err R_FieldsOnCorrectType [st_pos]] /\
+      run_alone R_FieldsOnCorrectType s (st_doc [st_inline None [st_typename]]) = [err R_FieldsOnCorrectType [st_pos]] /\
+      run_alone R_FieldsOnCorrectType s (st_doc [st_inline None [st_inline None [st_typename]]; st_typename]) =
+        [err R_FieldsOnCorrectType [st_pos]; err R_FieldsOnCorrectType [st_pos]] /\
+      (* the specification agrees *)
+      violated R_FieldsOnCorrectType s (st_doc [st_typename]) = true /\
+      violated R_FieldsOnCorrectType s (st_doc [st_inline None [st_typename]]) = true /\
+      violated R_FieldsOnCorrectType s (st_doc [st_inline (Some "T") [st_typename]]) = false
+  | None => False
+  end.
+Proof. vm_compute. repeat split; discriminate. Qed.
+Print Assumptions C04_subscription_root_typename.
